@@ -66,7 +66,7 @@ func genC03(t *rapid.T) C03Scn {
 	}
 	s := C03Scn{Hops: rapid.IntRange(1, 4).Draw(t, "hops"), Detour: rapid.IntRange(0, 2).Draw(t, "detour") == 0,
 		Class: rapid.SampledFrom([]string{"clean", "lossless", "light", "light", "light", "stress"}).Draw(t, "class"),
-		Mode:  rapid.SampledFrom([]string{"direct", "direct", "direct", "proxy"}).Draw(t, "mode"),
+		Mode:  rapid.SampledFrom([]string{"direct", "direct", "proxy"}).Draw(t, "mode"),
 		Shape: rapid.SampledFrom([]string{"duplex", "duplex", "pingpong"}).Draw(t, "shape")}
 	if s.Detour && rapid.Bool().Draw(t, "longer") {
 		s.Hops = rapid.IntRange(3, 4).Draw(t, "detourhops") // interior links exist
@@ -87,6 +87,14 @@ func genC03(t *rapid.T) C03Scn {
 	}
 	s.ReadA = rapid.SliceOfN(rapid.SampledFrom([]int{1, 7, 512, 4096, 65536}), 1, 3).Draw(t, "ra")
 	s.ReadB = rapid.SliceOfN(rapid.SampledFrom([]int{1, 7, 512, 4096, 65536}), 1, 3).Draw(t, "rb")
+	if tw := rapid.IntRange(0, 2).Draw(t, "twin"); tw == 0 || (s.Mode == "proxy" && tw == 1) {
+		s.Twin = true
+		s.TwinA = genWrites(t, "twa", maxTotal/2)
+		s.TwinB = genWrites(t, "twb", maxTotal/2)
+		if len(s.TwinA) == 0 {
+			s.TwinA = []int{1}
+		}
+	}
 	if cut {
 		s.CutAt = rapid.SampledFrom([]int{1, 1000, 20000}).Draw(t, "cutat")
 		s.CutLink = rapid.IntRange(0, 3).Draw(t, "cutlink")
@@ -100,7 +108,7 @@ func genC03(t *rapid.T) C03Scn {
 func TestC03(t *testing.T) {
 	st := vx.NewStats("C03", "streams", "real chains of 1-4 hops (optionally with a costlier detour) whose links run drawn fault programmes of 50-200 actions per direction {pass, drop, duplicate, delay, hold-back = reorder}: "+
 		"clean, lossless, light (<= 3 % drop) or stress (<= 10 %); two write scripts (sizes 1 B - 64 KiB+1, total <= 64 KiB quick / 1 MiB thorough), reader buffer sizes 1 B - 64 KiB, duplex or ping-pong, direct mesh stream or "+
-		"through the TCP proxy services; optionally a main-path link is cut once k bytes have arrived; oracle: every byte read equals the byte written at that offset (always), nothing beyond what was written, end-of-stream "+
+		"through the TCP proxy services; in one scenario of three (two of three through the proxies) a second connection to the same service / through the same proxy is opened at the same moment with its own two byte sequences; optionally a main-path link is cut once k bytes have arrived; oracle: every byte read equals the byte written at that offset (always), nothing beyond what was written, end-of-stream "+
 		"only after all data; completeness within 75 s for clean / lossless / light (stress: inconclusive); non-trivial = >= 1 dropped and >= 1 reordered datagram and >= 8 KiB moved, or a re-route")
 	defer st.Flush()
 	r := &vx.Runner{Name: "C03", Timeout: 300 * time.Second, Recycle: 15}
